@@ -3,11 +3,12 @@
 S=/tmp/ref-scr
 git -C /repo worktree remove --force "$S" 2>/dev/null; rm -rf "$S"
 git -C /repo worktree add -q --detach "$S" HEAD || exit 2
+V="${TMPDIR:-/tmp}/shipverif-scratch"; mkdir -p "$V"; cp /verif/known_findings.json "$V/"
 for f in "$@"; do
   git -C "$S" checkout -q -- . && git -C "$S" clean -fdq
   if ! git -C "$S" apply "$f" 2>/dev/null; then echo "== $f: DOES NOT APPLY"; continue; fi
   echo "== $f"
-  out=$(SHIPVERIF_REPO="$S" /verif/bin/shipverif check all --repo "$S" --verif /tmp/shipverif-scratch 2>&1)
+  out=$(SHIPVERIF_REPO="$S" /verif/bin/shipverif check all --repo "$S" --verif "${TMPDIR:-/tmp}/shipverif-scratch" 2>&1)
   echo "$out" | grep -A1 "^VIOLATION" | grep "rule=" | cut -c1-300
   echo "$out" | grep -c "^VIOLATION" | sed 's/^/   violations: /'
 done
